@@ -107,13 +107,14 @@ class GeoNetwork(SpatialNetwork):
         #  Set instance variable accordingly
         self.node_weight_type = node_weight_type
 
+        #  (use the setter: keeps total/mean weight and the cache consistent)
         if node_weight_type == "surface":
-            self._node_weights = self.grid.cos_lat()
+            self.node_weights = self.grid.cos_lat()
         elif node_weight_type == "irrigation":
-            self._node_weights = np.square(self.grid.cos_lat())
+            self.node_weights = np.square(self.grid.cos_lat())
         #  If None or invalid choice:
         else:
-            self._node_weights = None
+            self.node_weights = None
 
     #
     #  Load and save GeoNetwork object
